@@ -20,7 +20,12 @@ try:
     ov = {"Replace": {os.path.join("/repo", f): os.path.join(wt, f) for f in changed}}
     ovf = wt + ".overlay.json"
     json.dump(ov, open(ovf, "w"))
-    env = dict(os.environ, VERIF_OVERLAY=ovf)
+    # evidence and replays of a run against a changed tree go to a scratch root,
+    # never into /verif/evidence
+    root = wt + ".root"
+    os.makedirs(root, exist_ok=True)
+    shutil.copy("/verif/known_findings.json", root)
+    env = dict(os.environ, VERIF_OVERLAY=ovf, VERIF_ROOT=root)
     r = subprocess.run(["/verif/run.sh", cid, tier], env=env, capture_output=True); r.stdout = r.stdout.decode("utf-8", "replace")
     out = r.stdout
     sigs = {}
@@ -34,3 +39,4 @@ finally:
     sh(f"git -C /repo worktree remove --force {wt}")
     for f in (wt + ".overlay.json",):
         if os.path.exists(f): os.remove(f)
+    shutil.rmtree(wt + ".root", ignore_errors=True)
